@@ -164,8 +164,8 @@ impl Property for C07 {
     }
     fn cases(&self, tier: Tier) -> usize {
         match tier {
-            Tier::Quick => 6_000,
-            Tier::Thorough => 200_000,
+            Tier::Quick => 12_000,
+            Tier::Thorough => 300_000,
         }
     }
     fn strategy(&self, _tier: Tier) -> BoxedStrategy<C07Case> {
